@@ -181,6 +181,7 @@ func execWindow(c Case) [][][]string {
 	emitted := 0
 	inCallback := false
 	inAdd := false
+	var lastAddStart, lastAddEnd time.Time
 	w.SetCallback(func(rows []types.Row) {
 		cp := append([]types.Row(nil), rows...)
 		cur = append(cur, emissionLine(kind, cp, inAdd))
@@ -238,9 +239,39 @@ func execWindow(c Case) [][][]string {
 			if len(op) > 3 {
 				key = unhx(op[3])
 			}
+			lastAddStart = time.Now()
 			inAdd = true
 			w.Add(rowOf(op[1], op[2], key))
 			inAdd = false
+			lastAddEnd = time.Now()
+		case "sleep": // real time passes (natural idle detection); the duration is cfg `nap` ns
+			time.Sleep(time.Duration(cfgInt(c, "nap", 45_000_000)))
+		case "ntick":
+			// a ticker update with nothing forced: the watermark decides from its own clock whether the source is idle.
+			// What it OUGHT to decide is measured here (wall time since the last Add, bracketed); only if the bracket
+			// straddles IDLETIMEOUT (the process was stalled for that long) the implementation's own decision is taken.
+			idle := time.Duration(cfgInt(c, "idle", 0))
+			before := window.VerifCurrentWatermark(w)
+			t0 := time.Now()
+			window.VerifWatermarkTick(w)
+			t1 := time.Now()
+			flag := "b"
+			switch {
+			case lastAddEnd.IsZero():
+				flag = "b"
+			case t0.Sub(lastAddEnd) > idle:
+				flag = "i"
+			case t1.Sub(lastAddStart) <= idle:
+				flag = "b"
+			default:
+				after := window.VerifCurrentWatermark(w)
+				if after.After(before) && after.After(t0.Add(-time.Duration(cfgInt(c, "ooo", 0))-time.Second)) {
+					flag = "ai"
+				} else {
+					flag = "ab"
+				}
+			}
+			cur = append(cur, []string{"tickflag", flag})
 		case "deliver":
 			for _, g := range op[1:] {
 				p := strings.Split(g, ":")
@@ -271,6 +302,12 @@ func execWindow(c Case) [][][]string {
 			}
 		case "itick":
 			window.VerifWatermarkTickIdle(w, true)
+		case "trigger": // manual flush (public as Streamsql.TriggerWindow)
+			from := len(cur)
+			w.Trigger()
+			if kind == "session" {
+				canonSessionPass(cur[from:])
+			}
 		case "pttick":
 			for _, g := range op[1:] {
 				p := strings.Split(g, ":")
